@@ -24,7 +24,9 @@ TRUSTED_BASE = [
     "grid machines, set_random_seed, split / sort_pop_best_score, iterate of the local optimizers, iterate / init_pos / evaluate of ParallelTempering / ParticleSwarm / Spiral / EvolutionStrategy / DifferentialEvolution / GeneticAlgorithm, PatternSearch's and PowellsMethod's iterate / finish_initialization / evaluate, GA parent selection, DIRECT selection, facade table, entropy census - and what they generate is PROVED equal to the "
     "hand-written model (GFO/Gen/*Check.lean); trusted: the mapping tables from Python statement / expression forms to Lean terms (attribute -> model "
     "field, comparison -> IEEE comparison on F, truthiness, `int(a / b)` and `//` of naturals -> `/`, generator / constraint call -> tape read) and the "
-    "numpy lines that are pinned verbatim and stand for a model function (clip-cast, mesh, fancy indexing, masks)",
+    "numpy lines that are pinned verbatim and stand for a model function (clip-cast, mesh, fancy indexing, masks); hand-modelled methods without a "
+    "translator (DownhillSimplex, DIRECT's step methods, new_dim, generate_pattern, float member moves, recombination, DE mutation, tempering swap) are "
+    "source-pinned (translators.gen_pins, pristine/pins.json): a changed pin is a broken correspondence, the pin itself proves nothing",
     "complete optimizer models (all 22): the oracle tape - outputs of the two generators, numpy's argsort (checked to be a descending arrangement), "
     "constraint verdicts, float vectors of moves, acquisition values - is recorded by pass-through wrappers installed from outside and consumed in program "
     "order with the arguments of the real calls checked; the hypotheses TapeOK / GridOK (random positions and candidate-grid rows are positions of the space, "
